@@ -24,7 +24,7 @@ v(X, Y) --> [X], [Y].
 `
 
 var c17Items = []string{
-	"[]", "[a]", "[b]", "[a, b]", "\"ab\"",
+	"[]", "[a]", "[b]", "[a, b]", "\"ab\"", "\"日a\"", "['日']",
 	"t(X)", "u", "pb", "v(X, Y)", "pb2", "pb3",
 	"{X = a}", "{true}", "{fail}", "{Y = X}",
 	"\\+ [a]", "\\+ u", "\\+ pb", "\\+ t(X)",
@@ -39,7 +39,7 @@ func c17Inputs(maxLen int) []string {
 	for _, l := range ref.Lists([]T{A("a"), A("b")}, maxLen) {
 		out = append(out, ref.Text(ref.List(l...)))
 	}
-	out = append(out, "[c]", "[c, a]", "[a, c]", "[b, b, a]")
+	out = append(out, "[c]", "[c, a]", "[a, c]", "[b, b, a]", "['日']", "['日', a]", "[a, '日', a]", "['日', a, b]")
 	return out
 }
 
@@ -168,7 +168,7 @@ var _ = strings.Join
 func init() {
 	h.Register(&h.Check{
 		ID: "C17",
-		Rule: "all grammars whose rule s(X,Y) --> Body ranges over every sequence of <= L body constructs out of 35 (terminal lists, strings, non-terminals with arguments, {}/1, \\+, !, call//N with extra arguments, ;, |, nested sequences, if-then(-else), a push-back non-terminal) over fixed non-left-recursive sub-grammars t//1, u//0, pb//0, pb2//0, pb3//0 (push-back of one terminal, of two, of a string), v//2; each in 9 variants (followed by a second rule; loaded through expand_term/2 + assertz/1; with a push-back head of one terminal, of two, of a string, empty, of three, with a head variable; as one of two top-level alternatives) x all input lists over {a,b} of length <= N (plus lists with c) through phrase/2 and phrase/3 (all remainders), and generation mode with unbound list / given remainder. plus 7 bodies with a cut NESTED inside a parenthesised alternation / if-then-else x 5 goals before x 5 goals after (known finding: such a cut is local here). Non-trivial = the reference yields an answer or error.",
+		Rule: "all grammars whose rule s(X,Y) --> Body ranges over every sequence of <= L body constructs out of 37 (terminal lists, a non-ASCII string and terminal, strings, non-terminals with arguments, {}/1, \\+, !, call//N with extra arguments, ;, |, nested sequences, if-then(-else), a push-back non-terminal) over fixed non-left-recursive sub-grammars t//1, u//0, pb//0, pb2//0, pb3//0 (push-back of one terminal, of two, of a string), v//2; each in 9 variants (followed by a second rule; loaded through expand_term/2 + assertz/1; with a push-back head of one terminal, of two, of a string, empty, of three, with a head variable; as one of two top-level alternatives) x all input lists over {a,b} of length <= N (plus lists with c) through phrase/2 and phrase/3 (all remainders), and generation mode with unbound list / given remainder. plus 7 bodies with a cut NESTED inside a parenthesised alternation / if-then-else x 5 goals before x 5 goals after (known finding: such a cut is local here). Non-trivial = the reference yields an answer or error.",
 		Explanation: "state = one grammar loaded into a fresh real interpreter; transition = one phrase/2,3 query run to exhaustion; compared with a DIRECT interpreter of grammar bodies over difference lists inside the reference machine (sequence threads the remainder, alternation is a choice, {} calls, \\+ consumes nothing, ! commits to the rule, push-back re-prepends) - which never translates a rule - on success/failure, argument bindings, remainder and answer order",
 		Assumptions: []string{"'!' occurs only as a direct element of a rule's top-level sequence or alternative (as C03)", "double_quotes = chars so that \"ab\" denotes [a,b]"},
 		Work:        c17Work,
